@@ -1411,6 +1411,11 @@ class Store:
                 mother_steps = self.get_path(mother_path).get_steps()
                 deep_merge_check(
                     processes, copy.deepcopy(mother_steps) or {})
+                # the copies are new processes: a command that one of
+                # the mother's processes still has in flight is not theirs
+                for _, process in dict_to_paths((), processes):
+                    process._pending_command = None
+                    process._command_result = None
 
             # get the daughter topology
             if 'topology' in daughter:
